@@ -187,8 +187,7 @@ def run(ctx: Ctx) -> None:
                 ctx.mismatch("text_join: implementation and model differ", {"request": ln[:1200], "impl": e[:500], "model": g[:500]})
         # tie of the modelled block sub-parser (mini_wellformed is a theorem about exactly this model)
         from . import miniblock
-        miniblock.tie(ctx, drv, 2000 if quick else 50000)
-        miniblock.tie_quote(ctx, drv, 2500 if quick else 60000)
+        miniblock.tie_all(ctx, drv, quick)
     finally:
         drv.close()
     ctx.partial += [
